@@ -1238,6 +1238,22 @@ where
             b.parts.subpath = unh(arg(a, 1)?)?.as_str().into();
             StepOut::Cont(b, dot)
         },
+        // a field of the public `parts` emptied IN PLACE (the allocation stays): the same as setting it to ""
+        "tns" => {
+            let mut b = b;
+            b.parts.namespace.truncate(0);
+            StepOut::Cont(b, dot)
+        },
+        "tver" => {
+            let mut b = b;
+            b.parts.version.drain(..);
+            StepOut::Cont(b, dot)
+        },
+        "tsub" => {
+            let mut b = b;
+            b.parts.subpath.retain(|_| false);
+            StepOut::Cont(b, dot)
+        },
         // build, and go on with the result's builder (`into_builder`): the state a value carries from one build to the next
         "rb" => match b.build() {
             Ok(p) => StepOut::Cont(p.into_builder(), "rb".to_string()),
